@@ -1,10 +1,11 @@
 """C05 — transient network faults never wedge a session."""
 from . import families as F
 from .simprops import generic_run, sizes, sim_replay
+from .p_endpoint import run_endpoint_correspondence
 LABELS = {"C05", "C01", "PANIC"}
 def run(ctx):
     k, m = (2, 10) if not ctx.thorough else (3, 16)
-    generic_run(ctx, LABELS, [("faults", lambda: F.fam_faults(ctx.rng, sizes(ctx, 150, 1200), exhaustive_k=k, exhaustive_m=m)),
+    generic_run(ctx, LABELS, extra=run_endpoint_correspondence, plan=[("faults", lambda: F.fam_faults(ctx.rng, sizes(ctx, 150, 1200), exhaustive_k=k, exhaustive_m=m)),
                               ("starve", lambda: F.fam_starve(ctx.rng, sizes(ctx, 40, 300))),
                               ("spectator", lambda: F.fam_spectator(ctx.rng, sizes(ctx, 60, 400)))])
 def replay(ctx, path):
